@@ -1,5 +1,5 @@
 use proc_macro2::{Ident, Span, TokenStream};
-use quote::{ToTokens, TokenStreamExt};
+use quote::ToTokens;
 use syn::{
     punctuated::Punctuated, spanned::Spanned, Data, DeriveInput, Expr, Lit, Meta, Token, UnOp,
 };
@@ -62,7 +62,10 @@ impl DiscriminantType {
 impl ToTokens for DiscriminantType {
     #[inline]
     fn to_tokens(&self, tokens: &mut TokenStream) {
-        tokens.append(Ident::new(self.as_str(), Span::call_site()));
+        // not the bare name: a type of that name may be in scope at the derive site
+        let ident = Ident::new(self.as_str(), Span::mixed_site());
+
+        tokens.extend(quote!(::core::primitive::#ident));
     }
 }
 
